@@ -66,10 +66,14 @@ struct compute_vec_div<L, T, Q, true> : public compute_vec_div<L, T, Q, false>
 
 #	if GLM_CONFIG_SWIZZLE == GLM_SWIZZLE_OPERATOR
 	template<length_t L, qualifier Q, int E0, int E1, int E2, int E3>
-	struct _swizzle_base1<L, float, Q, E0,E1,E2,E3, true> : public _swizzle_base0<float, L>
+	struct _swizzle_base1<L, float, Q, E0,E1,E2,E3, true> : public _swizzle_base1<L, float, Q, E0,E1,E2,E3, false>
 	{
 		GLM_FUNC_QUALIFIER vec<L, float, Q> operator ()()  const
 		{
+			// a swizzle that only names the first two components may belong to a two-component vector: 8 bytes, not a full register
+			if(E0 < 2 && E1 < 2 && E2 < 2 && (L == 3 || E3 < 2))
+				return _swizzle_base1<L, float, Q, E0,E1,E2,E3, false>::operator()();
+
 			__m128 data = *reinterpret_cast<__m128 const*>(&this->_buffer);
 
 			vec<L, float, Q> Result;
@@ -92,10 +96,14 @@ struct compute_vec_div<L, T, Q, true> : public compute_vec_div<L, T, Q, false>
 	struct _swizzle_base1<2, uint, Q, E0, E1, E2, E3, true> : public _swizzle_base1<2, uint, Q, E0, E1, E2, E3, false> {};
 
 	template<length_t L, qualifier Q, int E0, int E1, int E2, int E3>
-	struct _swizzle_base1<L, int, Q, E0,E1,E2,E3, true> : public _swizzle_base0<int, L>
+	struct _swizzle_base1<L, int, Q, E0,E1,E2,E3, true> : public _swizzle_base1<L, int, Q, E0,E1,E2,E3, false>
 	{
 		GLM_FUNC_QUALIFIER vec<L, int, Q> operator ()()  const
 		{
+			// a swizzle that only names the first two components may belong to a two-component vector: 8 bytes, not a full register
+			if(E0 < 2 && E1 < 2 && E2 < 2 && (L == 3 || E3 < 2))
+				return _swizzle_base1<L, int, Q, E0,E1,E2,E3, false>::operator()();
+
 			__m128i data = *reinterpret_cast<__m128i const*>(&this->_buffer);
 
 			vec<L, int, Q> Result;
@@ -105,10 +113,14 @@ struct compute_vec_div<L, T, Q, true> : public compute_vec_div<L, T, Q, false>
 	};
 
 	template<length_t L, qualifier Q, int E0, int E1, int E2, int E3>
-	struct _swizzle_base1<L, uint, Q, E0,E1,E2,E3, true> : public _swizzle_base0<uint, L>
+	struct _swizzle_base1<L, uint, Q, E0,E1,E2,E3, true> : public _swizzle_base1<L, uint, Q, E0,E1,E2,E3, false>
 	{
 		GLM_FUNC_QUALIFIER vec<L, uint, Q> operator ()()  const
 		{
+			// a swizzle that only names the first two components may belong to a two-component vector: 8 bytes, not a full register
+			if(E0 < 2 && E1 < 2 && E2 < 2 && (L == 3 || E3 < 2))
+				return _swizzle_base1<L, uint, Q, E0,E1,E2,E3, false>::operator()();
+
 			__m128i data = *reinterpret_cast<__m128i const*>(&this->_buffer);
 
 			vec<L, uint, Q> Result;
